@@ -281,6 +281,68 @@ def harness(fam, L, N, mode, prefix=()):
     return h
 
 
+def domainless_case(N):
+    """an evaluation over a domain-less variable is not disturbed by instances that come into being while it is suspended
+    (created by the program, or inferred by another evaluation); it ranges over the instances alive when it started"""
+    from . import sgworld as W
+
+    def h(ctx):
+        W.fresh_graph()
+        n = 1 + ctx.choice("n", N)
+        objs = [W.T(tag=i) for i in range(n)]
+        q = an(entity(let(W.T, None)))
+        it = q.evaluate()
+        pulled = ctx.choice("pulled", n + 1)
+        got = []
+        for _ in range(pulled):
+            got.append(next(it))
+        how = ctx.choice("how", 3)
+        extra = []
+        if how == 0:
+            extra = [W.T(tag=100 + i) for i in range(1 + ctx.choice("k", 2))]  # the program creates instances
+        elif how == 1:
+            extra = [W.Sub(tag=100)]  # an instance of a subclass
+        else:
+            # another evaluation runs in between and infers instances of the type
+            src = let(W.Other, [W.Other(tag=7)], name="src")
+            views = inference(W.T)()
+            rq = an(entity(views, src.tag > 0))
+            with rq:
+                Add(views, inference(W.T)(tag=src.tag))
+            extra = list(rq.evaluate())
+        got.extend(it)
+        ctx.observe(n, pulled, how, [getattr(o, "tag", None) for o in got])
+        ctx.note("nonempty", bool(got))
+        v = {}
+        has_all = all(sum(1 for g in got if g is o) == 1 for o in objs)
+        only_known = all(any(g is o for o in objs + extra) for g in got) and len(got) <= len(objs) + len(extra)
+        if how == 2 and pulled > 0:
+            # the result of an evaluation does not depend on another evaluation that runs while it is suspended
+            v["suspended-evaluation-is-not-disturbed-by-another-evaluation"] = has_all and len(got) == n
+        else:
+            # instances the program itself creates meanwhile may or may not be seen (not stated); the others are seen once
+            v["suspended-evaluation-sees-every-instance-alive-at-its-start-once"] = has_all and only_known
+        # a query stated afterwards sees everything that is alive now
+        later = list(an(entity(let(W.T, None))).evaluate())
+        v["a-later-evaluation-sees-the-new-instances"] = len(later) == n + len(extra) and all(any(g is o for g in later) for o in objs + extra)
+        del got, later, extra, it
+        # a rule that infers instances of the very type its own variable ranges over does not feed on its conclusions
+        import itertools as _it
+
+        x = let(W.T, None, name="x")
+        out = inference(W.T)()
+        fq = an(entity(out, x.tag >= 0))
+        with fq:
+            Add(out, inference(W.T)(tag=x.tag))
+        n_alive = len(list(an(entity(let(W.T, None))).evaluate()))
+        produced = list(_it.islice(fq.evaluate(), n_alive + 3))
+        v["a-rule-does-not-feed-on-its-own-conclusions"] = len(produced) == n_alive
+        del produced
+        return v
+
+    return h, W
+
+
 def cases(tier, seed):
     L = 4 if tier == "quick" else 7
     N = 2
@@ -290,6 +352,8 @@ def cases(tier, seed):
             nm = "%s|%s" % (fam, mode)
             cs.append(Case(nm + ("|L=%d" % L if mode == "schedule" else ""), harness(fam, L, N, mode), key=nm, reset=eql_reset, validate=1,
                            timeout=400 if tier == "quick" else 2400, max_paths=150000 if tier == "quick" else 2000000, cex_grace=10**9))
+    h_, W_ = domainless_case(2 if tier == "quick" else 3)
+    cs.append(Case("a domain-less variable while instances are created during its evaluation", h_, key="domainless-variable|instances-created-meanwhile", reset=lambda: (W_.world_reset(), eql_reset()), validate=1, timeout=400))
     # both evaluations requested first, then L symbolic next / drain steps
     for fam in ("two-queries-sharing-a-lazily-produced-domain", "rule-with-refinement-twice"):
         nm = "%s|schedule after both were requested" % fam
@@ -302,7 +366,7 @@ def describe(tier):
     L = 4 if tier == "quick" else 7
     return dict(
         rule="scenario family (one query twice; two-variable query; two queries sharing a variable; sharing a variable whose domain is a generator; sharing a sub-expression; exists; for_all; the() then an(); "
-        "rule query; rule query with refinement) x mode (sequential 0,1,0; evaluation 1 nested inside every step of evaluation 0; a symbolic schedule of <= %d "
+        "rule query; rule query with refinement; plus a suspended evaluation over a domain-less variable while the program creates / another evaluation infers instances of its type) x mode (sequential 0,1,0; evaluation 1 nested inside every step of evaluation 0; a symbolic schedule of <= %d "
         "steps over start(q_i) / next(it_j) / drain(it_j) (consume the rest) / abandon(it_j) with <= 3 iterators); attribute values symbolic; the reference for every evaluation is the result of "
         "a fresh, structurally identical query over the same objects run alone; non-trivial = >= 2 feasible paths and some output" % L,
         bounds=dict(schedule_length=L, iterators="<= 3", objects_per_domain=2, values="unbounded integers"),
